@@ -306,7 +306,9 @@ package pubsub
 // clearPeerFromTopicsState: the peer is in no topic afterwards, every other (topic, peer) pair is
 // untouched, one Leave notification per topic it was in.
 //@ func (*PubSub).clearPeerFromTopicsState
-//@   property C05 C13
+//@   property C05 C13 C18
+//@   loop 1 step leave-notified-per-topic: calls((*PubSub).notifyLeave) - iter(calls((*PubSub).notifyLeave)) == ite(iter(has(p.topics, t, pid)), 1, 0) &&
+//@        (iter(has(p.topics, t, pid)) ==> lastarg((*PubSub).notifyLeave, 1) == t && lastarg((*PubSub).notifyLeave, 2) == pid)
 //@   requires rep: topicsRep(p)
 //@   noframe
 //@   loop 1 invariant cleared: forall t string :: $visited[t] ==> !has(p.topics, t, pid)
